@@ -101,6 +101,9 @@ func histories(r *Run) {
 		r.Violate("create-failed", "Create failed on a valid set: %v", cre.Err)
 	}
 	w.RecordCreated(r, cre)
+	if w.Par1 && worldID < 0 && t.Bool(1, 6, "foreign-writer") {
+		w.RewriteAsForeignPar1(r)
+	}
 
 	maxSteps := 12
 	if r.Thorough() {
